@@ -95,9 +95,27 @@ CLAIMED = {
         text="The PROV-JSON text the library writes for every MC_Ser document is lexed by stdlib json and read by "
              "SpecJson.tla, a reader written in TLA+ from the PROV-JSON submission (own key tables, no code shared with "
              "the library); TLC checks structural well-formedness (WfJSON) and that the reader recovers the source "
-             "content (bags, URI level).  PROV-XML part: see C02/SpecXml when present.",
-        note=TRUST + ". The reader is as good as my reading of the specification. XML half not yet claimed here.",
+             "content (bags, URI level).  Likewise for PROV-XML: expat lexer + SpecXml.tla (reader from the PROV-XML "
+             "note and schema: subtype elements, prov:id / prov:ref QNames through in-scope bindings, xsi:type, "
+             "xml:lang, schema child order in WfXML).",
+        note=TRUST + ". The readers are as good as my reading of the two specifications. Known finding "
+             "KF-C03-shadow excluded by predicate.",
         ref="3 C10"),
+    "C02": dict(
+        text="As C01 for PROV-XML, for force_types in {False, True}; the document space is restricted to "
+             "XML-expressible documents as the property states (prov:label plain or language-tagged).",
+        note=TRUST + ". No TLA+ transcription of the XML encoder/decoder yet (the xsi:type table is exercised "
+             "through every attribute class x value kind). Known finding KF-C03-shadow excluded by predicate.",
+        ref="3 C02"),
+    "C06": dict(
+        text="The text of get_provn() for every MC_Ser document is parsed by an independent parser of the W3C grammar "
+             "(harness/lex_provn.py: tokens, escapes, generic expression syntax) and read by SpecProvN.tla, which "
+             "decides arity, argument positions, where '-' may stand, whether an identifier / attribute list is "
+             "allowed, literal denotation and name resolution through the printed declarations; TLC compares the "
+             "result with the source projection (bags, URI level).",
+        note=TRUST + ". Grammar membership below expression level is decided by my parser. Known findings "
+             "KF-C06-noid and KF-C03-shadow excluded by predicates.",
+        ref="3 C06"),
 }
 for _c in CLAIMED.values():
     _c.setdefault("technique", TECH)
